@@ -83,6 +83,7 @@ char *cmd_pipe(char *cmd, char *ibuf, int oproc)
 		return NULL;
 	if (oproc)
 		sb = sbuf_make();
+	signal(SIGPIPE, SIG_IGN);	/* the command may exit before reading all of ibuf */
 	if (ibuf == NULL) {
 		signal(SIGINT, SIG_IGN);
 		term_done();
@@ -134,6 +135,7 @@ char *cmd_pipe(char *cmd, char *ibuf, int oproc)
 	close(fds[0].fd);
 	close(fds[1].fd);
 	waitpid(pid, NULL, 0);
+	signal(SIGPIPE, SIG_DFL);
 	if (ibuf == NULL) {
 		term_init();
 		signal(SIGINT, SIG_DFL);
